@@ -426,6 +426,16 @@ def _harness(ctx, cfg):
         return props is None or pid in props
 
     k = z3.Int("k_fresh")
+    disabled = list(cfg.get("disable", []))
+    if disabled:
+        # C10: a disabled feature is no longer changed by edits (its stored values are arbitrary)
+        p.tr.disable_features(disabled)
+        p.rp_keys = [x for x in p.rp_keys if x not in disabled]
+        if "iou" in disabled:
+            p.with_iou = False
+        ctx.input("disabled", disabled)
+    raw_n0 = [dict(d) for d in p.g.nattr]
+    raw_e0 = {e: dict(d) for e, d in p.g.eattr.items()}
     S0 = Snap(p, k)
     if kind == "paint":
         act, exc, info = paint(ctx, p, cfg)
@@ -465,6 +475,24 @@ def _harness(ctx, cfg):
         if want("C09") and p.with_iou:
             ctx.oblige(f"C09.iou_current{tagname}", iou_consistent_snap(p, Sx, sarr), "C09")
 
+    if disabled and want("C10"):
+        cs = []
+        for i in range(g.N):
+            for key in disabled:
+                if key == "iou":
+                    continue
+                cs.append(Implies(And(S0.sh.al[i], S1.sh.al[i]), same_value(raw_n0[i].get(key), g.nattr[i].get(key))))
+        if "iou" in disabled:
+            named_edge = None
+            if kind in ("UserAddEdge", "UserDeleteEdge"):
+                a_ = ctx.inputs.get("args", {})
+                named_edge = (p.ids.index(a_["u"]), p.ids.index(a_["v"]))
+            for (a, b), d in raw_e0.items():
+                if (a, b) == named_edge:
+                    continue  # the named edge may be removed and re-created by the edit itself
+                cs.append(Implies(And(S0.sh.A[a][b], S1.sh.A[a][b]),
+                                  same_value(d.get("iou"), g.eattr.get((a, b), {}).get("iou"))))
+        ctx.oblige("C10.disabled_feature_untouched_by_edit", And(cs), "C10")
     if want("C07") and kind == "paint":
         ctx.oblige("C07.array_as_painted", seg_same(info["painted"], seg1), "C07")
     post_obligations("", S1, seg1)
